@@ -127,9 +127,20 @@ theorem union_refused (env : Env) (src right : String) (t r : Tbl) (d : Bool) (e
         simp [hr, hb, hg, hn, bind, Except.bind, throw, throwThe, MonadExceptOf.throw]
       · cases hc
 
-/-- scope after a union: only the visible left columns survive (C11.union_columns gives the names) -/
+/-- scope after a union: only the visible left columns survive (C11.union_columns gives the names), and they are
+    ordinary columns of the new relation: not constant, element-wise (repair of D73: a column that is constant or an
+    aggregate on the left side kept that type) -/
 theorem union_scope (c r : Cache) (i : NodeId) (ch rt : Ast) (d : Bool) :
-    (c.update (.union i ch rt d) (some r)).cols = c.cols.filter (fun e => c.uuidToName.any (·.1 == e.1)) := by
+    (c.update (.union i ch rt d) (some r)).cols =
+      (c.cols.filter (fun e => c.uuidToName.any (·.1 == e.1))).map
+        (fun e => (e.1, { e.2 with dtype := e.2.dtype.withoutConst, ftype := .elementWise })) := by
   simp [Cache.update]
+
+theorem union_cols_plain (c r : Cache) (i : NodeId) (ch rt : Ast) (d : Bool) :
+    ∀ e ∈ (c.update (.union i ch rt d) (some r)).cols, e.2.ftype = .elementWise ∧ ∃ x ∈ c.cols, e.2.dtype = x.2.dtype.withoutConst := by
+  intro e he
+  rw [union_scope] at he
+  obtain ⟨x, hx, rfl⟩ := List.mem_map.1 he
+  exact ⟨rfl, x, (List.mem_filter.1 hx).1, rfl⟩
 
 end Pdt.C07
